@@ -481,9 +481,15 @@ package spine
 // inbound command processing (C01, C03)
 
 // resolution of a local feature address (body: C07); linked to the interface-level view used by the registries
-//@ func (*DeviceLocal).FeatureByAddress trusted
+//@ define entNN(d) = forall i int :: 0 <= i && i < len(d.entities) ==> d.entities[i] != nil
+//@ define entAt(e, id) = deepEqual(id, e.Address().Entity)
+//@ func (*DeviceLocal).FeatureByAddress
 //@   requires r != nil && address != nil
-//@   ensures result == asIface(r, api.DeviceLocalInterface).FeatureByAddress(address)
+//@   requires[C07] entNN(r) && !held(r.mux)
+//@   let L0 = r.entities
+//@   defines[] iface-view: result == asIface(r, api.DeviceLocalInterface).FeatureByAddress(address)
+//@   ensures[C07] unknown-entity: (forall i int :: 0 <= i && i < len(L0) ==> !entAt(L0[i], address.Entity)) ==> result == nil
+//@   ensures[C07] resolves: forall i int :: 0 <= i && i < len(L0) && entAt(L0[i], address.Entity) && (forall j int :: 0 <= j && j < i ==> !entAt(L0[j], address.Entity)) ==> result == old(L0[i].FeatureOfAddress(address.Feature))
 //@   modifies held
 
 // What a local feature does with a message (assumed at the call in ProcessCmd; proved on
@@ -836,3 +842,235 @@ package spine
 //@   ensures[C16] no-other-stream: old(eligible) ==> forall d int :: old(spawnn) <= d && d < S1 ==> spawnfn[d] != UHD
 //@   ensures[C16] lock-released: !held(c.mux)
 //@   modifies c.localEntity, c.localFeature, c.heartBeatNum, c.stopHeartbeatC, held, chclosed, spawn, @SETLOG, @PUBLISH, outmisc, world
+
+// ---------------------------------------------------------------------------------------
+// local device tree (C07)
+
+// the interface getters of *Operations return its (construction-time) fields
+//@ axiom forall p *Operations :: {asIface(p, api.OperationsInterface).Read()} p != nil ==> asIface(p, api.OperationsInterface).Read() == p.read
+//@ axiom forall p *Operations :: {asIface(p, api.OperationsInterface).Write()} p != nil ==> asIface(p, api.OperationsInterface).Write() == p.write
+//@ func (*Operations).Read
+//@   requires r != nil
+//@   ensures[C07] is-field: result == r.read
+//@   modifies nothing
+//@ func (*Operations).Write
+//@   requires r != nil
+//@   ensures[C07] is-field: result == r.write
+//@   modifies nothing
+
+// announced operations of one function: read / write present exactly when allowed, partial flags likewise
+//@ func[C07] (*Operations).Information impl:api.OperationsInterface.Information
+//@   requires r != nil
+//@   ensures[C07] faithful: result != nil && fresh(result) && ((result.Read != nil) <==> r.read) && ((result.Write != nil) <==> r.write) && (result.Read != nil ==> ((result.Read.Partial != nil) <==> r.readPartial)) && (result.Write != nil ==> ((result.Write.Partial != nil) <==> r.writePartial))
+//@   modifies nothing
+
+// announced feature: address, type, role, description of the feature and one supportedFunction entry per function
+// added to it (as a set: map iteration order is arbitrary), each with the operations of that function
+//@ func (*FeatureLocal).Information
+//@   requires r != nil && r.Feature != nil
+//@   requires forall k model.FunctionType :: has(r.operations, k) ==> r.operations[k] != nil
+//@   let OPS = r.operations
+//@   define SF = result.Description.SupportedFunction
+//@   ensures[C07] identity: result != nil && fresh(result) && result.Description != nil && result.Description.FeatureAddress == r.address && result.Description.FeatureType != nil && *result.Description.FeatureType == r.ftype && result.Description.Role != nil && *result.Description.Role == r.role && result.Description.Description == r.description
+//@   ensures[C07] functions-count: len(SF) == len(OPS)
+//@   ensures[C07] functions-all: forall k model.FunctionType :: has(OPS, k) ==> exists j int :: 0 <= j && j < len(SF) && SF[j].Function != nil && *SF[j].Function == k
+//@   ensures[C07] functions-only: forall j int :: 0 <= j && j < len(SF) ==> SF[j].Function != nil && has(OPS, *SF[j].Function) && SF[j].PossibleOperations != nil && ((SF[j].PossibleOperations.Read != nil) <==> OPS[*SF[j].Function].Read()) && ((SF[j].PossibleOperations.Write != nil) <==> OPS[*SF[j].Function].Write())
+//@   modifies nothing
+//@   loop 0 invariant count: len(funs) == $k && (funs == nil || freshPre(funs))
+//@   loop 0 invariant all: forall k model.FunctionType :: $visited[k] ==> exists j int :: {funs[j]} 0 <= j && j < len(funs) && funs[j].Function != nil && *funs[j].Function == k
+//@   loop 0 invariant only-fn: forall j int :: 0 <= j && j < len(funs) ==> funs[j].Function != nil && freshPre(funs[j].Function) && allocated(funs[j].Function) && has(OPS, *funs[j].Function)
+//@   loop 0 invariant only-ops: forall j int :: 0 <= j && j < len(funs) ==> funs[j].PossibleOperations != nil && freshPre(funs[j].PossibleOperations) && allocated(funs[j].PossibleOperations)
+//@   loop 0 invariant only-read: forall j int :: 0 <= j && j < len(funs) ==> ((funs[j].PossibleOperations.Read != nil) <==> OPS[*funs[j].Function].Read())
+//@   loop 0 invariant only-write: forall j int :: 0 <= j && j < len(funs) ==> ((funs[j].PossibleOperations.Write != nil) <==> OPS[*funs[j].Function].Write())
+//@   loop 0 invariant frame: unchangedPre(Feature) && unchangedPre(FeatureLocal)
+
+//@ axiom forall p *EntityLocal :: {asIface(p, api.EntityLocalInterface).EntityType()} p != nil ==> asIface(p, api.EntityLocalInterface).EntityType() == p.Entity.eType
+//@ func[C07] (*EntityLocal).Information impl:api.EntityLocalInterface.Information
+//@   requires r != nil && r.Entity != nil
+//@   ensures[C07] identity: result != nil && fresh(result) && result.Description != nil && result.Description.EntityAddress == r.Entity.address && result.Description.EntityType != nil && *result.Description.EntityType == r.Entity.eType
+//@   modifies nothing
+
+//@ axiom forall p *EntityLocal :: {asIface(p, api.EntityLocalInterface).Address()} p != nil ==> asIface(p, api.EntityLocalInterface).Address() == p.Entity.address
+//@ func (*Entity).Address
+//@   requires r != nil
+//@   ensures[C07] is-field: result == r.address
+//@   modifies nothing
+
+// feature numbers: nextfid[e] is the next number the generator closure of entity e hands out. The closure body is
+// verified below (returns the captured counter and increments it); calls through the field Entity.fIdGenerator use
+// the abstract contract (assumption: the field only ever holds a closure made by newFeatureIdGenerator, whose counter
+// cell is private to it - NewEntity is the only writer of the field).
+//@ ghost nextfid map[ref]int
+//@ extern funcfield:spine.Entity.fIdGenerator
+//@   requires held(self.muxGenerator)
+//@   ensures result == old(nextfid[self]) && nextfid == store(old(nextfid), self, old(nextfid[self]) + 1)
+//@   modifies nextfid
+
+//@ func newFeatureIdGenerator$1
+//@   ensures[C07] hands-out-then-increments: result == old(id) && id == old(id) + 1
+//@   modifies id
+
+//@ func (*Entity).NextFeatureId
+//@   requires r != nil && !held(r.muxGenerator)
+//@   ensures[C07] fresh-number: result == old(nextfid[r]) && nextfid == store(old(nextfid), r, old(nextfid[r]) + 1)
+//@   ensures[C07] atomic: acquisitions(r.muxGenerator) == 1 && onlyAcquires(r.muxGenerator) && locksUnchanged()
+//@   modifies nextfid, held
+
+//@ func NewFeatureLocal
+//@   requires entity != nil
+//@   ensures[C07] built: result != nil && fresh(result) && result.Feature != nil && fresh(result.Feature) && result.Feature.ftype == ftype && result.Feature.role == role && result.entity == entity
+//@   ensures[C07] addressed: result.Feature.address != nil && fresh(result.Feature.address) && result.Feature.address.Feature != nil && *result.Feature.address.Feature == id && result.Feature.address.Entity == entity.Address().Entity && result.Feature.address.Device == entity.Address().Device
+//@   ensures[C07] no-functions-yet: result.Feature.operations != nil && fresh(result.Feature.operations) && len(result.Feature.operations) == 0
+//@   modifies nothing
+//@   loop 0 invariant res-kept: unchangedPre(FeatureLocal) && unchangedPre(Feature) && unchangedPre(model.FeatureAddressType)
+//@   loop 0 invariant own-map: res != nil && fresh(res) && res.functionDataMap != nil && fresh(res.functionDataMap)
+//@   loop 0 invariant other-maps: mapsUnchangedOld(gomap[model.FunctionType]api.FunctionDataCmdInterface)
+
+// the feature list of a local entity (guarded by EntityLocal.mux)
+//@ field[C07,C17] EntityLocal.features guarded_by mux
+//@ define featNN(e) = forall i int :: 0 <= i && i < len(e.features) ==> e.features[i] != nil
+//@ define featIs(f, t, ro) = f.Type() == t && f.Role() == ro
+
+//@ func (*EntityLocal).FeatureOfTypeAndRole
+//@   requires r != nil && featNN(r) && !held(r.mux)
+//@   let L0 = r.features
+//@   ensures[C07] first-match: result != nil ==> exists i int :: 0 <= i && i < len(L0) && result == L0[i] && featIs(L0[i], featureType, role) && forall j int :: 0 <= j && j < i ==> !featIs(L0[j], featureType, role)
+//@   ensures[C07] none: result == nil ==> forall i int :: 0 <= i && i < len(L0) ==> !featIs(L0[i], featureType, role)
+//@   ensures[C07] atomic: acquisitions(r.mux) == 1 && locksUnchanged()
+//@   modifies held
+//@   loop 0 invariant none-yet: forall j int :: 0 <= j && j < $k ==> !featIs($s[j], featureType, role)
+//@   loop 0 invariant locked: held(r.mux) && acquisitions(r.mux) == 1 && $s == L0
+
+// AddFeature: at most one feature per (type, role)
+//@ func (*EntityLocal).AddFeature
+//@   requires r != nil && f != nil && featNN(r) && !held(r.mux)
+//@   let L0 = r.features
+//@   define dup = exists i int :: 0 <= i && i < len(L0) && featIs(L0[i], f.Type(), f.Role())
+//@   ensures[C07] dedup: old(dup) ==> r.features == L0
+//@   ensures[C07] appended: !old(dup) ==> len(r.features) == len(L0) + 1 && (forall j int :: 0 <= j && j < len(L0) ==> r.features[j] == old(L0[j])) && r.features[len(L0)] == f
+//@   ensures[C07] atomic: acquisitions(r.mux) == 1 && locksUnchanged()
+//@   modifies r.features, r.features[len(r.features)], held
+//@   loop 0 invariant none-yet: forall j int :: 0 <= j && j < $k ==> !featIs($s[j], f.Type(), f.Role())
+//@   loop 0 invariant locked: held(r.mux) && acquisitions(r.mux) == 1 && $s == L0 && r.features == L0
+
+// every announced feature address resolves to the feature that carries it
+//@ func (*EntityLocal).FeatureOfAddress
+//@   requires r != nil && featNN(r) && !held(r.mux)
+//@   let L0 = r.features
+//@   define hasNo(f, a) = f.Address().Feature != nil && *f.Address().Feature == a
+//@   ensures[C07] nil-address: addressFeature == nil ==> result == nil
+//@   ensures[C07] first-match: result != nil ==> addressFeature != nil && exists i int :: 0 <= i && i < len(L0) && result == L0[i] && hasNo(L0[i], *addressFeature) && forall j int :: 0 <= j && j < i ==> !hasNo(L0[j], *addressFeature)
+//@   ensures[C07] none: result == nil && addressFeature != nil ==> forall i int :: 0 <= i && i < len(L0) ==> !hasNo(L0[i], *addressFeature)
+//@   ensures[C07] atomic: acquisitions(r.mux) == 1 && locksUnchanged()
+//@   modifies held
+//@   loop 0 invariant none-yet: forall j int :: 0 <= j && j < $k ==> !hasNo($s[j], *addressFeature)
+//@   loop 0 invariant locked: held(r.mux) && acquisitions(r.mux) == 1 && $s == L0 && addressFeature != nil
+
+// get-or-create: asking again for one (type, role) yields the same feature; a created feature gets the next free
+// number of the entity and is appended. Atomic (one critical section of r.mux), so also from any goroutines.
+//@ func (*EntityLocal).GetOrAddFeature
+//@   requires r != nil && r.Entity != nil && r.Entity.address != nil && featNN(r) && !held(r.mux) && !held(r.Entity.muxGenerator)
+//@   let L0 = r.features
+//@   define present = exists i int :: 0 <= i && i < len(L0) && featIs(L0[i], featureType, role)
+//@   ensures[C07] existing: old(present) ==> r.features == L0 && exists i int :: 0 <= i && i < len(L0) && result == L0[i] && featIs(L0[i], featureType, role)
+//@   ensures[C07] existing-no-number: old(present) ==> nextfid == old(nextfid)
+//@   ensures[C07] created: !old(present) ==> len(r.features) == len(L0) + 1 && (forall j int :: 0 <= j && j < len(L0) ==> r.features[j] == old(L0[j])) && r.features[len(L0)] == result && typeIs(result, *FeatureLocal) && fresh(result.(*FeatureLocal))
+//@   ensures[C07] created-identity: !old(present) ==> result.(*FeatureLocal).Feature.ftype == featureType && result.(*FeatureLocal).Feature.role == role && *result.(*FeatureLocal).Feature.address.Feature == old(nextfid[r.Entity]) && result.(*FeatureLocal).Feature.address.Entity == r.Entity.address.Entity && result.(*FeatureLocal).Feature.address.Device == r.Entity.address.Device && result.(*FeatureLocal).entity == asIface(r, api.EntityLocalInterface)
+//@   ensures[C07] created-number: !old(present) ==> nextfid == store(old(nextfid), r.Entity, old(nextfid[r.Entity]) + 1)
+//@   ensures[C07] atomic: acquisitions(r.mux) == 1 && locksUnchanged()
+//@   modifies r.features, r.features[len(r.features)], nextfid, held
+//@   loop 0 invariant none-yet: forall j int :: 0 <= j && j < $k ==> !featIs($s[j], featureType, role)
+//@   loop 0 invariant locked: held(r.mux) && acquisitions(r.mux) == 1 && $s == L0 && r.features == L0 && nextfid == old(nextfid)
+
+// resolution of local entity addresses: the first entity whose address equals the requested one (content equality)
+//@ field[C07,C17] DeviceLocal.entities guarded_by mux
+//@ func (*DeviceLocal).Entity
+//@   requires r != nil && entNN(r) && !held(r.mux)
+//@   let L0 = r.entities
+//@   ensures[C07] first-match: result != nil ==> exists i int :: 0 <= i && i < len(L0) && result == L0[i] && entAt(L0[i], id) && forall j int :: 0 <= j && j < i ==> !entAt(L0[j], id)
+//@   ensures[C07] none: result == nil ==> forall i int :: 0 <= i && i < len(L0) ==> !entAt(L0[i], id)
+//@   ensures[C07] atomic: acquisitions(r.mux) == 1 && onlyAcquires(r.mux) && locksUnchanged()
+//@   modifies held
+//@   loop 0 invariant none-yet: forall j int :: 0 <= j && j < $k ==> !entAt($s[j], id)
+//@   loop 0 invariant locked: held(r.mux) && acquisitions(r.mux) == 1 && onlyAcquires(r.mux) && $s == L0
+
+// adding a function to a local feature: announced with exactly the given read/write flags; only server/special
+// features carry functions; a function already present is left alone
+//@ func (*FeatureLocal).AddFunctionType
+//@   requires r != nil && r.Feature != nil && r.Feature.operations != nil && r.entity != nil
+//@   let OPS = r.Feature.operations
+//@   define accepted = (r.Feature.role == model.RoleTypeServer || r.Feature.role == model.RoleTypeSpecial) && !(has(OPS, function) && OPS[function] != nil)
+//@   ensures[C07] rejected: !old(accepted) ==> forall k model.FunctionType :: has(OPS, k) == old(has(OPS, k)) && OPS[k] == old(OPS[k])
+//@   ensures[C07] added: old(accepted) ==> has(OPS, function) && typeIs(OPS[function], *Operations) && fresh(OPS[function].(*Operations)) && OPS[function].(*Operations).read == read && OPS[function].(*Operations).write == write && OPS[function].(*Operations).readPartial == false && (OPS[function].(*Operations).writePartial ==> write)
+//@   ensures[C07] others-kept: forall k model.FunctionType :: k != function ==> has(OPS, k) == old(has(OPS, k)) && OPS[k] == old(OPS[k])
+//@   define isHeartbeat = r.Feature.role == model.RoleTypeServer && r.Feature.ftype == model.FeatureTypeTypeDeviceDiagnosis && function == model.FunctionTypeDeviceDiagnosisHeartbeatData
+//@   ensures[C07,C16] heartbeat-wired: old(accepted && isHeartbeat) ==> hbsetn == old(hbsetn) + 1 && hbsetmgr[old(hbsetn)] == old(r.entity.HeartbeatManager()) && hbsetfeat[old(hbsetn)] == asIface(r, api.FeatureLocalInterface)
+//@   ensures[C07,C16] not-wired-otherwise: !old(accepted && isHeartbeat) ==> hbsetn == old(hbsetn) && spawnn == old(spawnn) && setn == old(setn)
+//@   modifies map(gomap[model.FunctionType]api.OperationsInterface), hbsetn, hbsetmgr, hbsetfeat, held, chclosed, spawn, @SETLOG, @PUBLISH, outmisc, world
+
+// ---------------------------------------------------------------------------------------
+// notification fan-out (C08, C07)
+
+// exactly the registry entries whose server feature carries the given address, in registry order
+//@ func (*SubscriptionManager).SubscriptionsOnFeature
+//@   requires c != nil && subInv(c)
+//@   let L0 = c.subscriptionEntries
+//@   define on(e) = deepEqual(*e.ServerFeature.Address(), featureAddress)
+//@   defines[] iface-view: result == asIface(c, api.SubscriptionManagerInterface).SubscriptionsOnFeature(featureAddress)
+//@   ensures[C08] count: len(result) == $cnt(len(L0))
+//@   ensures[C08] all-matching: forall j int :: 0 <= j && j < len(L0) && on(L0[j]) ==> result[$cnt(j)] == L0[j]
+//@   ensures[C08] only-matching: forall k int :: 0 <= k && k < len(result) ==> 0 <= $idx(k) && $idx(k) < len(L0) && result[k] == L0[$idx(k)] && on(L0[$idx(k)])
+//@   ensures[C08] registry-untouched: c.subscriptionEntries == L0
+//@   modifies held
+
+// one Notify per subscription on the feature, to the subscriber's own connection, from the subscribed server
+// feature to the subscribed client feature, carrying the given command - and no other Notify
+//@ func (*DeviceLocal).NotifySubscribers
+//@   requires r != nil && featureAddress != nil
+//@   let S = r.subscriptionManager.SubscriptionsOnFeature(*featureAddress)
+//@   ensures[C08,C07] one-each: ntn == old(ntn) + len(S)
+//@   ensures[C08,C07] to-subscriber: forall j int :: {nts[old(ntn) + j]} 0 <= j && j < len(S) ==> nts[old(ntn) + j] == old(S[j].ClientFeature.Device().Sender())
+//@   ensures[C08,C07] from-server-feature: forall j int :: {ntsrc[old(ntn) + j]} 0 <= j && j < len(S) ==> ntsrc[old(ntn) + j] == old(S[j].ServerFeature.Address())
+//@   ensures[C08,C07] to-client-feature: forall j int :: {ntdst[old(ntn) + j]} 0 <= j && j < len(S) ==> ntdst[old(ntn) + j] == old(S[j].ClientFeature.Address())
+//@   ensures[C08,C07] carries-cmd: forall j int :: {ntcmd[old(ntn) + j]} 0 <= j && j < len(S) ==> ntcmd[old(ntn) + j] == cmd
+//@   ensures[C08,C07] log-older: (forall d int :: {nts[d]} d < old(ntn) ==> nts[d] == old(nts)[d]) && (forall d int :: {ntsrc[d]} d < old(ntn) ==> ntsrc[d] == old(ntsrc)[d]) && (forall d int :: {ntdst[d]} d < old(ntn) ==> ntdst[d] == old(ntdst)[d]) && (forall d int :: {ntcmd[d]} d < old(ntn) ==> ntcmd[d] == old(ntcmd)[d])
+//@   modifies outmisc, held, @NTLOG
+//@   loop 0 invariant count: ntn == pre(ntn) + $k && $s == S
+//@   loop 0 invariant each: forall j int :: 0 <= j && j < $k ==> nts[pre(ntn) + j] == old(S[j].ClientFeature.Device().Sender()) && ntsrc[pre(ntn) + j] == old(S[j].ServerFeature.Address()) && ntdst[pre(ntn) + j] == old(S[j].ClientFeature.Address()) && ntcmd[pre(ntn) + j] == cmd
+//@   loop 0 invariant older: forall d int :: d < pre(ntn) ==> nts[d] == pre(nts)[d] && ntsrc[d] == pre(ntsrc)[d] && ntdst[d] == pre(ntdst)[d] && ntcmd[d] == pre(ntcmd)[d]
+
+// announcing a local entity change: one NotifySubscribers call on the node management feature (fan-out: above)
+//@ func (*DeviceLocal).notifySubscribersOfEntity
+//@   requires r != nil && entity != nil && r.nodeManagement != nil && r.nodeManagement.FeatureLocal != nil && r.nodeManagement.FeatureLocal.Feature != nil && r.nodeManagement.FeatureLocal.Feature.address != nil
+//@   let S = r.subscriptionManager.SubscriptionsOnFeature(*r.nodeManagement.FeatureLocal.Feature.address)
+//@   define NC(j) = ntcmd[old(ntn) + j]
+//@   define DD(j) = ntcmd[old(ntn) + j].NodeManagementDetailedDiscoveryData
+//@   ensures[C07] one-each: ntn == old(ntn) + len(S) && forall j int :: 0 <= j && j < len(S) ==> nts[old(ntn) + j] == old(S[j].ClientFeature.Device().Sender()) && ntsrc[old(ntn) + j] == old(S[j].ServerFeature.Address()) && ntdst[old(ntn) + j] == old(S[j].ClientFeature.Address())
+//@   ensures[C07] log-older: forall d int :: d < old(ntn) ==> nts[d] == old(nts)[d] && ntsrc[d] == old(ntsrc)[d] && ntdst[d] == old(ntdst)[d] && ntcmd[d] == old(ntcmd)[d]
+//@   modifies outmisc, held, @NTLOG
+//@   loop 0 invariant added-only: state == model.NetworkManagementStateChangeTypeAdded && ntn == old(ntn) && len(featureInformation) == $k
+
+// adding / removing a local entity: the entity list changes by exactly that entity, subscribers of node management
+// are notified once (notifySubscribersOfEntity), a removed entity's heartbeat is stopped
+//@ define NMADDR(d) = *d.nodeManagement.FeatureLocal.Feature.address
+//@ func (*DeviceLocal).AddEntity
+//@   requires r != nil && entity != nil && !held(r.mux) && r.nodeManagement != nil && r.nodeManagement.FeatureLocal != nil && r.nodeManagement.FeatureLocal.Feature != nil && r.nodeManagement.FeatureLocal.Feature.address != nil
+//@   let L0 = r.entities
+//@   let S = r.subscriptionManager.SubscriptionsOnFeature(NMADDR(r))
+//@   ensures[C07] appended: len(r.entities) == len(L0) + 1 && (forall j int :: 0 <= j && j < len(L0) ==> r.entities[j] == old(L0[j])) && r.entities[len(L0)] == entity
+//@   ensures[C07] notified-once-each: ntn == old(ntn) + len(S) && forall j int :: 0 <= j && j < len(S) ==> nts[old(ntn) + j] == old(S[j].ClientFeature.Device().Sender()) && ntdst[old(ntn) + j] == old(S[j].ClientFeature.Address())
+//@   modifies r.entities, r.entities[len(r.entities)], outmisc, held, @NTLOG
+
+//@ func (*DeviceLocal).RemoveEntity
+//@   requires r != nil && entity != nil && !held(r.mux) && r.nodeManagement != nil && r.nodeManagement.FeatureLocal != nil && r.nodeManagement.FeatureLocal.Feature != nil && r.nodeManagement.FeatureLocal.Feature.address != nil
+//@   let L0 = r.entities
+//@   define kept(e) = e != entity
+//@   filter F loop 0 src L0 keep kept
+//@   ensures[C07] removed-exactly: len(r.entities) == Fcnt(len(L0)) && forall j int :: 0 <= j && j < len(L0) && kept(L0[j]) ==> r.entities[Fcnt(j)] == old(L0[j])
+//@   ensures[C07,C16] heartbeat-stopped: old(entity.HeartbeatManager()) != nil ==> hbstopn == old(hbstopn) + 1 && hbstopmgr[old(hbstopn)] == old(entity.HeartbeatManager())
+//@   ensures[C07,C16] no-manager-no-stop: old(entity.HeartbeatManager()) == nil ==> hbstopn == old(hbstopn)
+//@   modifies r.entities, outmisc, held, @NTLOG, @PUBLISH, world, hbstopn, hbstopmgr, chclosed
+//@   loop 0 invariant acc: entities == nil || freshPre(entities)
+//@   loop 0 invariant len: len(entities) == Fcnt($k)
+//@   loop 0 invariant elems: forall j int :: 0 <= j && j < $k && kept($s[j]) ==> entities[Fcnt(j)] == $s[j]
+//@   loop 0 invariant locked: held(r.mux) && $s == L0 && hbstopn == pre(hbstopn) && hbstopmgr == pre(hbstopmgr)
